@@ -39,7 +39,7 @@ def _spec(draw):
             ll['times'][o] = list(reversed(ll['times'][o]))
             decreasing = True
     ll['flat_single'] = ll['n_out'] == 1 and draw(st.booleans())
-    prior = llbuild.draw_prior(draw, llbuild.ll_n_parameters(ll))
+    prior = llbuild.draw_prior(draw, llbuild.ll_n_parameters(ll), params)
     return dict(ll=ll, params=params, oos=oos, decreasing=decreasing, prior=prior)
 
 
